@@ -21,11 +21,15 @@ pub mod hc {
 }
 
 mod c06;
+mod c16;
+mod c19;
 
 fn main() -> std::process::ExitCode {
     let args: Vec<String> = std::env::args().collect();
     match args.get(1).map(String::as_str) {
         Some("c06") => c06::run(),
+        Some("c16") => c16::run(args.get(2).and_then(|s| s.parse().ok()).unwrap_or(1)),
+        Some("c19") => c19::run(args.get(2).and_then(|s| s.parse().ok()).unwrap_or(1), args.get(3).and_then(|s| s.parse().ok()).unwrap_or(200)),
         _ => {
             eprintln!("usage: zvh c06 < lines");
             std::process::ExitCode::from(2)
